@@ -5,6 +5,7 @@
 //	c12 exhaustive -len L -kind dict|set -route go|star -hashes zero3|same5|prefill
 //	c12 random     -n H -ops N -kind dict|set -route go|star -seed S
 //	c12 sample     -n H -maxops M -seed S
+//	c12 guard      -n H -maxops M -seed S   (freeze / iterate / Done events; see guard.go)
 //	c12 replay     (reads one {"tkind","route","hashes","init","ops"} object on stdin)
 //
 // One JSON object per line on stdout.
@@ -2754,6 +2755,8 @@ func main() {
 		programs(*n, *maxops, *seed)
 	case "bigsets":
 		bigsets(*n, *seed)
+	case "guard":
+		guardMode(*n, *maxops, *seed)
 	case "replay":
 		var h History
 		if err := json.NewDecoder(os.Stdin).Decode(&h); err != nil {
